@@ -95,7 +95,9 @@ impl Prop for C09 {
         ]
     }
     fn enumerate(&self, _tier: Tier) -> Vec<AnyGraph> {
-        gen::enumerate_histories(1).into_iter().map(AnyGraph::Hist).collect()
+        let mut v: Vec<AnyGraph> = gen::enumerate_histories(1).into_iter().map(AnyGraph::Hist).collect();
+        v.extend(crate::huge::huge_cases().into_iter().map(AnyGraph::Graph));
+        v
     }
     fn strategy(&self, tier: Tier) -> BoxedStrategy<AnyGraph> {
         any_graph_strategy(tier.pick(24, 50))
@@ -104,6 +106,18 @@ impl Prop for C09 {
         tier.pick(300_000, 3_000_000)
     }
     fn check(&self, case: &AnyGraph) -> Outcome {
+        if let AnyGraph::Graph(c) = case {
+            if c.big_n > 60_000 {
+                // the fixed huge-graph cases (more than 2^16 nodes), linear oracles
+                let mut out = Outcome::new();
+                let ng = c.norm();
+                let g = ng.build();
+                crate::huge::degrees(&g, &ng, &mut out);
+                out.class("huge_graph_66003_nodes");
+                out.nontrivial = true;
+                return out;
+            }
+        }
         let mut out = Outcome::new();
         let Some((mut g, m)) = realise(case, &mut out) else {
             return out;
